@@ -44,6 +44,7 @@ def caps_ok(ctx, s, case):
 
 
 def numeric_stream(ctx, single_col_zone, two_col_zone, old_spec):
+    from bloqade.geometry.dialects import grid
     """argument types and values outside the dyadic sweep: Python ints, spacings that are no binary fractions; checked directly
     (counts exactly, coordinates to 1e-9), not through the exact Lean model"""
     def close(a, b):
@@ -61,9 +62,14 @@ def numeric_stream(ctx, single_col_zone, two_col_zone, old_spec):
                     ctx.fail(case, f"single-zone layout has shape {z.shape}, requested ({nx}, {ny})")
                 elif not (close(list(z.x_positions), [i * s for i in range(nx)]) and close(list(z.y_positions), [j * s for j in range(ny)])):
                     ctx.fail(case, "single-zone sites are not i*spacing, j*spacing")
+                elif tuple(z.x_spacing) != (s,) * (nx - 1) or tuple(z.y_spacing) != (s,) * (ny - 1) or (z.x_init, z.y_init) != (0, 0):
+                    # the zone is *at the requested spacing*: the value the caller passed, not one recomputed from positions
+                    ctx.fail(case, f"single-zone spacings are not the requested spacing: {tuple(z.x_spacing)[:4]} / {tuple(z.y_spacing)[:4]}")
                 old = old_spec.single_zone_spec(nx, ny, s)
-                if old.layout.static_traps["traps"].shape != z.shape:
+                if old.layout.static_traps["traps"].shape != z.shape or not (old == sp and sp == old and hash(old) == hash(sp)):
                     ctx.fail(case, "deprecated single_zone_spec differs from single_col_zone.get_spec")
+                if sp.layout.get_zone_id(grid.Grid((s,) * (nx - 1), (s,) * (ny - 1), 0.0, 0.0)) != "traps":
+                    ctx.fail(case, "the documented grid value is not recognised as zone 'traps'")
     for s, gs in ((10, 2.5), (10, 0.75), (4, 1.5), (7, 2), (10.0, 3), (0.3, 0.1), (3.7, 1.3)):
         for nx, ny in ((1, 1), (2, 3), (4, 2), (5, 5)):
             case = {"builder": "two_col_zone.get_spec", "args": [nx, ny, repr(s), repr(gs)]}
